@@ -4,8 +4,11 @@ Unless marked "any carrier", theorems are over an arbitrary linearly ordered fie
 forecasts `n ≥ 1`, ensemble size `m ≥ 1`, all observation and member values (ties included); `sort` is any
 function returning a sorted permutation (`SortOK`), which is all the kernel needs of `qsort`.
 `kernel` = `c_crps` (use_weights = 0, is_sorted = 0); `wrapper` = `metrics.crps` on `[n]` / `[n,m]` data with NaN
-as `none`; `wrapperNd` = the same with the shape handling of `__check_ensemble_data`. All three run in the
-driver and are compared with the real code on every case.
+as `none`; `wrapperNd` = the same with the shape handling of `__check_ensemble_data`; `kernelGen` / `stepOp` /
+`runOps` = the extension-level entry point `c_hydrodiy_stat.crps` with both flags, the caller's weights and the
+caller's output arrays (which `c_crps` adds to), as histories of operations on one pair of arrays;
+`definitionCrps` = the definition itself, executable. All of them run in the driver and are compared with the
+real code (`definitionCrps`: with the oracle's exact definition) on every case.
 
 Clause → theorems → what stays outside
  1  CRPS = mean over forecasts of E|X-y| - ½E|X-X'| (all n, m; ties, outliers, constant ensembles)
@@ -15,8 +18,12 @@ Clause → theorems → what stays outside
  2  crps = reliability + potential                       crps_decomposition, entry_point_spec        (rounding: as 1)
  3  resolution = uncertainty - potential                 crps_decomposition, entry_point_spec,
       resolution_eq_uncertainty_minus_potential_any_carrier (literal, so also in IEEE doubles)
- 4  reliability, potential, uncertainty ≥ 0 (not NaN)    crps_decomposition, entry_point_spec
-      outside: sign in IEEE doubles (held by the oracle only; needed the fix: commit capping o[0], o[ncol])
+ 4  reliability, potential, uncertainty ≥ 0 (not NaN)    crps_decomposition, entry_point_spec,
+      signs_under_any_monotone_rounding (any arithmetic that rounds every operation monotonically, so also IEEE
+      doubles short of overflow; no hypothesis on qsort or shapes: uses the kernel's EDOM guard and the cut of
+      o[0], o[ncol] at 1 introduced by the fix: commit)
+      outside: overflow to inf (oracle on data up to the bound where even the un-normalised sums are finite; data up
+      to 2^1021 generated for the model/code correspondence)
  5  uncertainty = CRPS of the observed climatology       uncertainty_eq_climatology_crps, entry_point_spec
  6  order of members                                     member_permutation_invariant, entry_member_permutation_invariant,
       member_order_irrelevant_any_carrier (bit-for-bit in IEEE doubles given qsort's output is the same)
@@ -29,13 +36,27 @@ Clause → theorems → what stays outside
  glue  [n] and [n,1] observation layouts agree (all n): obs_column_layout_same; [n]/[n',m] arrays:
       wrapperNd_vector_matrix; rejected input: wrapper_rejects_length_mismatch, wrapper_rejects_no_valid_forecast,
       obs_two_dimensional_rejected (all any carrier)
-      outside: dtype conversion (`astype(float64)`), ensembles with more than two dimensions, kept forecasts
-      with some-but-not-all NaN members (model declines: nanMember / ensNot2D; never generated)
+      outside: dtype conversion (`astype(float64)`), kept forecasts with some-but-not-all NaN members (model
+      declines: nanMember; never generated); ensembles with more than two dimensions are never answered by the
+      code (ValueError / IndexError): model ensNot2D, compared as "rejected" only
+ n = 0  kernel_zero_forecasts: what the kernel returns at the point `Shape.n_pos` excludes (all parts 0); the entry
+      point rejects it before (wrapper_rejects_no_valid_forecast), the extension-level stream calls it
+ arrays  entry_point_spec_arrays: clauses 1-4 on `[n]` observations / a C-ordered `[n,m]` array, with `m` members per
+      forecast derived from the array shape instead of assumed; CRPS stated with the executable `definitionCrps`
+ extension level (the other public route to the same kernel; `metrics.crps` = both flags 0 on zeroed arrays)
+      extension_call_zeroed_is_kernel, zeroed_call_forgets_history (any earlier history on the same output arrays
+      is irrelevant once they are zeroed), unzeroed_outputs_offset (the zeroing is needed: d0 + CRPS, d1 + reliability),
+      call_reads_two_cells, failing_op_leaves_outputs (List Op; AssertionError / EDOM leave both arrays untouched),
+      explicit_uniform_weights_same, sorted_flag_same, sorted_flag_rejects_unsorted (all any carrier except the offset)
+      outside: use_weights = 1 with fewer weights than forecasts and ncol = 0 read outside the C arrays (model
+      declines: weightsLen / shape; never generated); general weights are compared (Float), not given a theorem
  assumption  mergeSort_sortOK: the driver's sort satisfies SortOK
 -/
 import HydroVerif.Model.C03
 import HydroVerif.Lemmas.C03
 import HydroVerif.Lemmas.C03Entry
+import HydroVerif.Lemmas.C03Pyx
+import HydroVerif.Lemmas.C03Round
 import Mathlib.Algebra.Order.Field.Rat
 
 set_option linter.unusedSectionVars false
@@ -362,7 +383,284 @@ theorem obs_two_dimensional_rejected (sort : List β → List β) (a b : ℕ) (h
   have h2 : (b != 1) = true := by simpa using hb
   simp [wrapperNd, obsForecasts, h1, h2]
 
+
+/-! #### the extension-level entry point `c_hydrodiy_stat.crps` (flags, weights, caller's output arrays) -/
+
+/-- **`metrics.crps` is the extension-level call with both flags off on zeroed arrays**: whatever is passed as
+weight vector (it is not read), with `crps_decompos[0] = crps_decompos[1] = 0` on entry, `c_crps` computes
+exactly what `kernel` describes -/
+theorem extension_call_zeroed_is_kernel (sort : List β → List β) (useW : Int) (hw : useW ≠ 1) (m : ℕ)
+    (obs : List β) (ens : List (List β)) (weights : List β) (out : Result β) (h0 : out.crps = 0)
+    (h1 : out.reli = some 0) :
+    kernelGen sort useW 0 m obs ens weights out = kernel sort m obs ens := by
+  unfold kernelGen kernel
+  split
+  · rfl
+  · have hnw : ¬ (useW = 1 ∧ weights.length < obs.length) := fun h => hw h.1
+    rw [if_neg hnw]
+    simp only [if_true]
+    rw [zip_replicate_zip _ obs ens obs.length (le_refl _)]
+    have := loopW_uniform sort (1 / (obs.length : β)) (obs.zip ens) [] (init m)
+    simp only [List.map_nil] at this
+    rw [this]
+    split
+    · rfl
+    · rw [finishInto_zeroed _ _ _ h0 h1]
+
+/-- **explicit uniform weights change nothing**: `use_weights = 1` with the vector `1/n, …, 1/n` (longer
+vectors: only the first `n` entries are read) gives, bit for bit, the answer of `use_weights = 0` -/
+theorem explicit_uniform_weights_same (sort : List β → List β) (isSorted : Int) (m : ℕ) (obs : List β)
+    (ens : List (List β)) (extra ws' : List β) (out : Result β) :
+    kernelGen sort 1 isSorted m obs ens (List.replicate obs.length (1 / (obs.length : β)) ++ extra) out
+      = kernelGen sort 0 isSorted m obs ens ws' out := by
+  unfold kernelGen
+  split
+  · rfl
+  · have h1 : ¬ ((1 : Int) = 1 ∧
+        (List.replicate obs.length (1 / (obs.length : β)) ++ extra).length < obs.length) := by
+      simp
+    have h2 : ¬ ((0 : Int) = 1 ∧ ws'.length < obs.length) := by simp
+    rw [if_neg h1, if_neg h2]
+    simp
+
+/-- **`is_sorted = 1` on members that are in order**: when `qsort` would return every row as it is, skipping
+it gives the same answer (for a sorted permutation in a total order this is every row in non-decreasing order:
+`sort_fixed_of_sorted`) -/
+theorem sorted_flag_same (sort : List β → List β) (useW isSorted : Int) (m : ℕ) (obs : List β)
+    (ens : List (List β)) (weights : List β) (out : Result β) (h : ∀ r ∈ ens, sort r = r) :
+    kernelGen sort useW isSorted m obs ens weights out = kernelGen sort useW 0 m obs ens weights out := by
+  by_cases hs : isSorted = 0
+  · rw [hs]
+  · unfold kernelGen
+    simp only [if_neg hs, if_true]
+    split
+    · rfl
+    · split
+      · rfl
+      · rw [loopW_congr_srt id sort _ _ _ (fun p hp => by
+          have := h p.2 (List.of_mem_zip hp).2
+          simp [this])]
+
+/-- **`is_sorted = 1` on members that are NOT in order is refused** (`EDOM`, c_crps.c:112-122): the guard
+inside the bin loop means a wrong flag can never produce a number -/
+theorem sorted_flag_rejects_unsorted (sort : List β → List β) (useW isSorted : Int) (hs : isSorted ≠ 0) (m : ℕ)
+    (hm : 1 ≤ m) (obs : List β) (ens : List (List β)) (weights : List β) (out : Result β)
+    (hlen : ens.length = obs.length) (hrows : ∀ r ∈ ens, r.length = m)
+    (hw : useW = 1 → obs.length ≤ weights.length) (hu : ∃ r ∈ ens, unsortedAt r = true) :
+    kernelGen sort useW isSorted m obs ens weights out = .error .edom := by
+  unfold kernelGen
+  have h1 : ¬ (ens.length ≠ obs.length ∨ m = 0 ∨ (ens.any fun r => r.length != m) = true) := by
+    intro hc
+    rcases hc with hc | hc | hc
+    · exact hc hlen
+    · omega
+    · rw [List.any_eq_true] at hc
+      obtain ⟨r, hr, hr2⟩ := hc
+      simp [hrows r hr] at hr2
+  have h2 : ¬ (useW = 1 ∧ weights.length < obs.length) := by
+    intro hc; have := hw hc.1; omega
+  rw [if_neg h1, if_neg h2]
+  simp only [if_neg hs]
+  have hwl : (if useW = 1 then weights.take obs.length
+      else List.replicate obs.length (1 / (obs.length : β))).length = obs.length := by
+    split
+    · rename_i h; have := hw h; simp; omega
+    · simp
+  rw [loopW_id_unsorted]
+  · intro p hp h0
+    have := hrows p.2 (List.of_mem_zip hp).2
+    rw [h0] at this; simp at this; omega
+  · obtain ⟨r, hr, hru⟩ := hu
+    obtain ⟨a, ha⟩ := exists_zip_of_mem_right (obs.zip (if useW = 1 then weights.take obs.length
+      else List.replicate obs.length (1 / (obs.length : β)))) ens
+      (by rw [List.length_zip, hwl, Nat.min_self, hlen]) hr
+    exact ⟨(a, r), ha, hru⟩
+
+/-- **a failing operation leaves the output arrays as they were**, after any history: wrong shapes
+(`AssertionError`) are caught before `c_crps` runs, and `EDOM` is returned from inside the forecast loop,
+before the first write to `reliability_table` / `crps_decompos` -/
+theorem failing_op_leaves_outputs (sort : List β → List β) (m : ℕ) (out : Result β) (h : List (Op β)) (op : Op β)
+    (hf : (stepOp sort m (runOps sort m out h).1 op).2 ≠ none) :
+    (runOps sort m out (h ++ [op])).1 = (runOps sort m out h).1 := by
+  rw [runOps_append]
+  simp only [runOps]
+  generalize (runOps sort m out h).1 = st at hf ⊢
+  cases op with
+  | fill v => simp [stepOp] at hf
+  | call useW isSorted obs cols sim weights =>
+    simp only [stepOp] at hf ⊢
+    by_cases hc : obs.length ≠ sim.length ∨ m ≠ cols
+    · rw [if_pos hc]
+    · rw [if_neg hc] at hf ⊢
+      cases hk : kernelGen sort useW isSorted cols obs sim weights st with
+      | error e => rfl
+      | ok r => rw [hk] at hf; exact absurd rfl hf
+
+/-- **zeroing the arrays before the call makes the history irrelevant** — what `metrics.crps` does by
+allocating `np.zeros` outputs for every call: after ANY sequence of earlier operations on the same arrays
+(successful, failed, with other data, other flags), `fill 0` followed by the plain call leaves exactly the
+kernel's answer -/
+theorem zeroed_call_forgets_history (sort : List β → List β) (m : ℕ) (out : Result β) (h : List (Op β))
+    (obs : List β) (ens : List (List β)) (weights : List β) (res : Result β) (hlen : obs.length = ens.length)
+    (hk : kernel sort m obs ens = .ok res) :
+    runOps sort m out (h ++ [.fill 0, .call 0 0 obs m ens weights])
+      = (res, (runOps sort m out h).2 ++ [none, none]) := by
+  rw [runOps_append]
+  have hz := extension_call_zeroed_is_kernel sort 0 (by decide) m obs ens weights (filled m (0 : β)) rfl rfl
+  simp only [runOps, stepOp, hlen, ne_eq, not_true_eq_false, or_self, if_false, hz, hk]
+
+/-- **what a successful call reads of the output arrays** is `crps_decompos[0]` and `crps_decompos[1]` only -/
+theorem call_reads_two_cells (sort : List β → List β) (useW isSorted : Int) (m : ℕ) (obs : List β)
+    (ens : List (List β)) (weights : List β) (out out' : Result β) (h0 : out.crps = out'.crps)
+    (h1 : out.reli = out'.reli) :
+    kernelGen sort useW isSorted m obs ens weights out = kernelGen sort useW isSorted m obs ens weights out' := by
+  have : ∀ s, finishInto m s out = finishInto m s out' := fun s => finishInto_congr m s out out' h0 h1
+  unfold kernelGen
+  simp only [this]
+
 end AnyCarrier
+
+/-- **the zeroing is needed**: on arrays holding `d0`, `d1` in `crps_decompos[0..1]` a successful call returns
+`d0 + CRPS` and `d1 + reliability` (so a second call on the same arrays doubles both), while resolution,
+uncertainty, potential and the table are those of the plain call -/
+theorem unzeroed_outputs_offset {sort : List α → List α} (hsort : SortOK sort) {m : ℕ} {obs : List α}
+    {ens : List (List α)} (h : Shape m obs ens) (weights : List α) (out : Result α) (d1 : α)
+    (hd : out.reli = some d1) :
+    ∃ res r, kernel sort m obs ens = .ok res ∧ kernelGen sort 0 0 m obs ens weights out = .ok r ∧
+      r.crps = out.crps + res.crps ∧ r.reli = res.reli.map (d1 + ·) ∧ r.resol = res.resol ∧ r.unc = res.unc ∧
+      r.pot = res.pot ∧ r.table = res.table := by
+  have hk := kernel_eq hsort h
+  have hz := extension_call_zeroed_is_kernel sort 0 (by decide) m obs ens weights (filled m (0 : α)) rfl rfl
+  rw [hk] at hz
+  -- both calls finish on the same loop state
+  unfold kernelGen at hz ⊢
+  have h1 : ¬ (ens.length ≠ obs.length ∨ m = 0 ∨ (ens.any fun r => r.length != m) = true) := by
+    intro hc
+    rcases hc with hc | hc | hc
+    · exact hc h.len
+    · have := h.m_pos; omega
+    · rw [List.any_eq_true] at hc
+      obtain ⟨r, hr, hr2⟩ := hc
+      simp [h.rows r hr] at hr2
+  have h2 : ¬ ((0 : Int) = 1 ∧ weights.length < obs.length) := by simp
+  rw [if_neg h1, if_neg h2] at hz ⊢
+  dsimp only at hz ⊢
+  cases hL : loopW (if (0 : Int) = 0 then sort else id) [] ((obs.zip (if (0 : Int) = 1 then weights.take obs.length
+      else List.replicate obs.length (1 / (obs.length : α)))).zip ens) (init m) with
+  | error e => rw [hL] at hz; cases hz
+  | ok s =>
+    rw [hL] at hz
+    dsimp only at hz ⊢
+    have hfin : finishInto m s (filled m (0 : α)) = finish m (finalAcc sort m obs ens) := Except.ok.inj hz
+    refine ⟨_, _, hk, rfl, ?_⟩
+    rw [← hfin]
+    have key := foldl_accRow_offset out.crps d1 (table m (clampFreq s))
+      ({ crps := 0, reli := some 0, pot := some 0 } : Tot α)
+    simp only [add_zero, Option.map_some] at key
+    unfold finishInto
+    simp only [hd, filled, key]
+    exact ⟨trivial, trivial, trivial, trivial, trivial, trivial⟩
+
+
+/-- **the excluded point `n = 0`** (`Shape.n_pos`): with no forecast at all the kernel still returns — CRPS,
+reliability, potential and uncertainty all 0 (the mean over an empty set of forecasts is not defined; the
+entry point never gets here: `wrapper_rejects_no_valid_forecast`; the extension-level stream of the harness
+calls it with zero forecasts) -/
+theorem kernel_zero_forecasts (sort : List α → List α) {m : ℕ} (hm : 1 ≤ m) :
+    ∃ res, kernel sort m [] [] = .ok res ∧ res.crps = 0 ∧ res.reli = some 0 ∧ res.pot = some 0 ∧
+      res.resol = some 0 ∧ res.unc = 0 := by
+  have h1 : ¬ (([] : List (List α)).length ≠ ([] : List α).length ∨ m = 0 ∨
+      (([] : List (List α)).any fun r => r.length != m) = true) := by
+    simp; omega
+  unfold kernel
+  rw [if_neg h1]
+  simp only [List.zip_nil_left, loop]
+  refine ⟨_, rfl, ?_⟩
+  have hidle : (table m (clampFreq (init m : Acc α))).foldl accRow
+      ({ crps := 0, reli := some 0, pot := some 0 } : Tot α) = { crps := 0, reli := some 0, pot := some 0 } := by
+    apply foldl_accRow_idle
+    intro r hr
+    simp only [table, List.mem_cons, List.mem_append, List.mem_nil_iff, or_false] at hr
+    rcases hr with rfl | hr | rfl
+    · simp [row0, clampFreq, init, mkRow, crpsTerm]
+    · exact mids_zero m (m - 1) 1 r (by simpa [clampFreq, init] using hr)
+    · simp [rowN, clampFreq, init, mkRow, crpsTerm]
+  unfold finish finishCore
+  simp only [hidle]
+  simp [clampFreq, init]
+
+
+/-! ### the signs under rounded arithmetic -/
+section Signs
+variable {β : Type} [Add β] [Sub β] [Mul β] [Div β] [LT β] [DecidableLT β] [LE β] [DecidableLE β]
+  [BEq β] [OfNat β 0] [OfNat β 1] [NatCast β] [SignArith β]
+
+/-- **reliability, potential and uncertainty are non-negative numbers in ROUNDED arithmetic too**: over every
+carrier whose operations satisfy `SignArith` — every ordered field, and every arithmetic that rounds each
+operation with a monotone idempotent map fixing 0 and 1 (`Fl R`; IEEE-754 doubles as long as nothing
+overflows) — whenever the kernel returns, the three parts are numbers `≥ 0`. No hypothesis on `qsort`, on the
+shapes or on the data: that bin widths are non-negative comes from the kernel's own guard
+(`ensemb[j+1] < ensemb[j] → EDOM`), and that the outlier frequencies are at most 1 from the cut
+`if(o > 1.0) o = 1.0` (in exact arithmetic the cut never acts; in rounded arithmetic it is what keeps the
+potential CRPS of an outlier bin from going negative). -/
+theorem signs_under_any_monotone_rounding (sort : List β → List β) (m : ℕ) (obs : List β) (ens : List (List β))
+    (res : Result β) (h : kernel sort m obs ens = .ok res) :
+    (∃ x, res.reli = some x ∧ 0 ≤ x) ∧ (∃ z, res.pot = some z ∧ 0 ≤ z) ∧ 0 ≤ res.unc := by
+  unfold kernel at h
+  split at h
+  · cases h
+  · dsimp only at h
+    have hw : (0 : β) ≤ 1 / (obs.length : β) :=
+      SignArith.div_nonneg SignArith.zero_le_one (SignArith.natCast_nonneg _)
+    split at h
+    · cases h
+    · rename_i s hs
+      cases h
+      exact finish_nn m s (NN_loop sort hw _ _ _ s hs (NN_init m))
+
+/-- the same at the entry point `metrics.crps`, whatever the shapes, NaN pattern and values passed: if it returns,
+reliability, potential and uncertainty are numbers `≥ 0` -/
+theorem entry_signs_under_any_monotone_rounding (sort : List β → List β) (oshape : List ℕ) (obs : List (Option β))
+    (eshape : List ℕ) (ens : List (Option β)) (res : Result β)
+    (h : wrapperNd sort oshape obs eshape ens = .ok res) :
+    (∃ x, res.reli = some x ∧ 0 ≤ x) ∧ (∃ z, res.pot = some z ∧ 0 ≤ z) ∧ 0 ≤ res.unc := by
+  unfold wrapperNd at h
+  split at h
+  · cases h
+  · split at h
+    · cases h
+    · unfold wrapper at h
+      split at h
+      · cases h
+      · dsimp only at h
+        split at h
+        · cases h
+        · split at h
+          · cases h
+          · exact signs_under_any_monotone_rounding sort _ _ _ res h
+
+end Signs
+
+/-! ### the entry point on arrays -/
+
+/-- **the property at the entry point, stated on the arrays themselves**: `obs` a vector of `n` values (NaN
+anywhere, one present), `ens` a C-ordered `[n, m]` array of finite members with `m ≥ 1`. Nothing else is
+assumed: that every forecast has `m` members is a consequence of the array shape (`reshape_row_len`). -/
+theorem entry_point_spec_arrays {sort : List α → List α} (hsort : SortOK sort) {n m : ℕ} (hm : 1 ≤ m)
+    {obs : List (Option α)} {flat : List α} (hobs : obs.length = n) (hflat : flat.length = n * m)
+    (hsome : ∃ y, some y ∈ obs) :
+    ∃ res reli pot, wrapperNd sort [n] obs [n, m] (flat.map some) = .ok res ∧
+      res.crps = definitionCrps obs (reshape m n flat) ∧
+      res.reli = some reli ∧ res.pot = some pot ∧ res.resol = some (res.unc - pot) ∧
+      res.crps = reli + pot ∧ 0 ≤ reli ∧ 0 ≤ pot ∧ 0 ≤ res.unc := by
+  have hE : EntryShape m obs (reshape m n flat) :=
+    ⟨by rw [reshape_length, hobs], hm, reshape_row_len m n flat hflat,
+      keptPairs_ne_nil obs _ (by rw [reshape_length, hobs]) hsome⟩
+  obtain ⟨res, reli, pot, _, h1, h2, h3, h4, h5, h6, h7, h8, h9, _, _⟩ := entry_point_spec hsort hE
+  refine ⟨res, reli, pot, ?_, ?_, h3, h4, h5, h6, h7, h8, h9⟩
+  · rw [wrapperNd_vector_matrix, reshape_map]; exact h1
+  · rw [definitionCrps_eq]; exact h2
+
 
 /-! ### the hypotheses are satisfiable (concrete, non-trivial inputs over `ℚ`) -/
 
@@ -415,5 +713,66 @@ example {sort : List α → List α} (hsort : SortOK sort) {ens ens' : List (Lis
 /-- rejected-input hypotheses: an all-NaN observation vector keeps nothing -/
 example : ∀ p ∈ ([none, none] : List (Option ℚ)).zip [[some 1], [some 2]], keep p = false := by
   intro p hp; simp at hp; rcases hp with rfl | rfl <;> rfl
+
+/-! #### new theorems: hypotheses met by concrete inputs -/
+
+/-- one member per forecast (`crps_single_member`): three forecasts -/
+example : ([(1 : ℚ), 4, 2]).length = ([(0 : ℚ), 5, 2]).length ∧ 1 ≤ ([(0 : ℚ), 5, 2]).length := by decide
+
+/-- `sorted_flag_same`: rows in non-decreasing order are fixed by every sorted permutation -/
+example {sort : List ℚ → List ℚ} (hsort : SortOK sort) : ∀ r ∈ [[(1 : ℚ), 3], [2, 2]], sort r = r := by
+  intro r hr
+  apply sort_fixed_of_sorted hsort
+  simp at hr
+  rcases hr with rfl | rfl <;> simp
+
+/-- `sorted_flag_rejects_unsorted`: a row out of order, shapes as the Cython wrapper guarantees them -/
+example : ∃ r ∈ [[(3 : ℚ), 1], [2, 2]], unsortedAt r = true := ⟨[3, 1], by simp, by simp [unsortedAt]⟩
+
+/-- on that input `is_sorted = 1` returns `EDOM` whatever the arrays hold -/
+example (sort : List ℚ → List ℚ) (out : Result ℚ) :
+    kernelGen sort 0 1 2 [3, 5] [[3, 1], [2, 2]] [] out = .error .edom :=
+  sorted_flag_rejects_unsorted sort 0 1 (by decide) 2 (by decide) [3, 5] [[3, 1], [2, 2]] [] out rfl
+    (by intro r hr; simp at hr; rcases hr with rfl | rfl <;> rfl) (by decide)
+    ⟨[3, 1], by simp, by simp [unsortedAt]⟩
+
+/-- `failing_op_leaves_outputs`: that call is a failing operation whatever the arrays hold (so after any history) -/
+example (sort : List ℚ → List ℚ) (st : Result ℚ) :
+    (stepOp sort 2 st (.call 0 1 [3, 5] 2 [[3, 1], [2, 2]] [])).2 ≠ none := by
+  simp only [stepOp]
+  rw [sorted_flag_rejects_unsorted sort 0 1 (by decide) 2 (by decide) [3, 5] [[3, 1], [2, 2]] [] st rfl
+    (by intro r hr; simp at hr; rcases hr with rfl | rfl <;> rfl) (by decide)
+    ⟨[3, 1], by simp, by simp [unsortedAt]⟩]
+  simp
+
+/-- `entry_point_spec_arrays`: three forecasts of two members as a flat array, the middle observation missing -/
+example : ([some (3 : ℚ), none, some 5]).length = 3 ∧ ([(3 : ℚ), 1, 7, 7, 2, 2]).length = 3 * 2 ∧
+    ∃ y, some y ∈ [some (3 : ℚ), none, some 5] := ⟨rfl, rfl, 3, by simp⟩
+
+/-- it really rounds: `1/3` becomes `1/2` -/
+example : ceilQuarter.rnd (1 / 3) = 1 / 2 := by
+  show ((⌈(1 / 3 : ℚ) * 4⌉ : ℤ) : ℚ) / 4 = 1 / 2
+  have : ⌈(1 / 3 : ℚ) * 4⌉ = 2 := by
+    rw [Int.ceil_eq_iff]; constructor <;> norm_num
+  rw [this]; norm_num
+
+/-- `signs_under_any_monotone_rounding` applies to the arithmetic that rounds every operation that way -/
+example (sort : List (Fl ceilQuarter) → List (Fl ceilQuarter)) (m : ℕ) (obs : List (Fl ceilQuarter))
+    (ens : List (List (Fl ceilQuarter))) (res : Result (Fl ceilQuarter)) (h : kernel sort m obs ens = .ok res) :
+    0 ≤ res.unc := (signs_under_any_monotone_rounding sort m obs ens res h).2.2
+
+/-- `signs_under_any_monotone_rounding` is not vacuous in rounded arithmetic: one forecast with one member, any
+two representable numbers — the kernel returns -/
+example (a b : Fl ceilQuarter) : ∃ res, kernel id 1 [a] [[b]] = .ok res := by
+  simp [kernel, loop, unsortedAt]
+
+/-- `extension_call_zeroed_is_kernel`, `zeroed_call_forgets_history`: zeroed arrays meet the two hypotheses, and the
+kernel returns on well-shaped input -/
+example : (filled 2 (0 : ℚ)).crps = 0 ∧ (filled 2 (0 : ℚ)).reli = some 0 := ⟨rfl, rfl⟩
+
+example : ∃ res, kernel (fun l : List ℚ => l.mergeSort fun a b => decide (a ≤ b)) 2 [3, 5] [[3, 1], [2, 2]] = .ok res := by
+  obtain ⟨res, h, _⟩ := crps_eq_definition (α := ℚ) mergeSort_sortOK (m := 2) (obs := [3, 5]) (ens := [[3, 1], [2, 2]])
+    ⟨rfl, by decide, by decide, by intro r hr; simp at hr; rcases hr with rfl | rfl <;> rfl⟩
+  exact ⟨res, h⟩
 
 end HydroVerif.C03
